@@ -101,6 +101,7 @@ class SStr extends SV {         // chars: array of (number | SNum 'i'), concrete
   slice(a, b) { return RT.strSubstring(this, a, b === undefined ? this.chars.length : b); }
   charAt(i) { const c = RT.strCharCodeAt(this, i); return new SStr([c]); }
   indexOf() { return unsupported('indexOf on symbolic string'); }
+  replace(re, rep) { return RT.strReplace(this, re, rep); }
   toString() { return this; }
 }
 class NumSeg { constructor(v) { this.v = v; } }
@@ -808,6 +809,12 @@ const RT = {
   },
   sm(o, name, args) { // method call that may be a String method on a concrete string with symbolic arguments
     if (typeof o === 'string' && args.some(isSym)) o = new SStr(this.strView(o));
+    if (name === 'join' && Array.isArray(o) && o.some(isSym)) {
+      const sep = args.length ? args[0] : ',';
+      let out = '';
+      for (let i = 0; i < o.length; i++) { if (i > 0) out = this.b('+', out, sep); out = this.b('+', out, (o[i] === null || o[i] === undefined) ? '' : o[i]); }
+      return out;
+    }
     return o[name](...args);
   },
   mc(o, k, args) {
@@ -841,10 +848,39 @@ const RT = {
     switch (op) {
       case '===': case '==': case '!==': case '!=': {
         const neg = op[0] === '!';
-        if (sa.length !== sb.length) return neg;
+        const hasSeg = sa.some(c => c instanceof NumSeg) || sb.some(c => c instanceof NumSeg);
+        if (hasSeg) {
+          // strings embedding formatted numbers are compared token-wise: runs of characters and number segments.  Sound because
+          // every number segment is required to be delimited by characters that cannot occur in a number's decimal form.
+          const delim = c => typeof c === 'number' && !((c >= 48 && c <= 57) || c === 45 || c === 46 || c === 43 || c === 101 || c === 69 || c === 78 || c === 97 || c === 73 || c === 110 || c === 102 || c === 105 || c === 116 || c === 121);
+          const okShape = (a) => a.every((c, i) => !(c instanceof NumSeg) || ((i === 0 || delim(a[i - 1])) && (i === a.length - 1 || delim(a[i + 1]))));
+          const toks = a => { const out = []; let run = []; for (const c of a) { if (c instanceof NumSeg) { out.push(run); out.push(c); run = []; } else run.push(c); } out.push(run); return out; };
+          const single = (a, b) => { // a = [NumSeg], b = all concrete chars: String(number) === text ?
+            if (!(a.length === 1 && a[0] instanceof NumSeg && b.every(c => typeof c === 'number'))) return null;
+            const text = String.fromCharCode(...b), n = Number(text);
+            if (text === '' || String(n) !== text) return false;
+            return this.numSegEq(a[0].v, n);
+          };
+          let r1 = single(sa, sb); if (r1 === null) r1 = single(sb, sa);
+          if (r1 !== null) { if (r1 === true || r1 === false) return neg ? !r1 : r1; return neg ? this.not(r1) : r1; }
+          if (!okShape(sa) || !okShape(sb)) return unsupported('comparison of strings with undelimited embedded numbers');
+          const ta = toks(sa), tb = toks(sb);
+          this.st.flags.numseg_eq = true;
+          if (ta.length !== tb.length) return neg;      // different number of delimited number fields: the delimiters differ
+          const conj = [];
+          for (let i = 0; i < ta.length; i++) {
+            if ((ta[i] instanceof NumSeg) !== (tb[i] instanceof NumSeg)) return neg;
+            if (ta[i] instanceof NumSeg) { const e = this.numSegEq(ta[i].v, tb[i].v); if (e === false) return neg; if (e !== true) conj.push(e.t); continue; }
+            if (ta[i].length !== tb[i].length) return neg;
+            for (let j = 0; j < ta[i].length; j++) { const e = this.eq(ta[i][j], tb[i][j], true); if (e === false) return neg; if (e !== true) conj.push(e.t); }
+          }
+          if (conj.length === 0) return !neg;
+          const r = this.B(conj.length === 1 ? conj[0] : '(and ' + conj.join(' ') + ')');
+          return neg ? this.not(r) : r;
+        } else if (sa.length !== sb.length) return neg;
         const conj = [];
         for (let i = 0; i < sa.length; i++) {
-          const e = this.eq(sa[i], sb[i], true);
+          const e = (sa[i] instanceof NumSeg) ? this.numSegEq(sa[i].v, sb[i].v) : this.eq(sa[i], sb[i], true);
           if (e === false) return neg;
           if (e !== true) conj.push(e.t);
         }
@@ -866,11 +902,31 @@ const RT = {
     }
     return unsupported('string operator ' + op);
   },
+  numSegEq(a, b) { // String(a) === String(b) for numbers: same value (+0 and -0 print alike; NaN prints as NaN)
+    const ia = this.asI(a), ib = this.asI(b);
+    if (ia && ib) return this.eq(a, b, true);
+    const x = this.asF(a), y = this.asF(b);
+    return this.B('(or (fp.eq ' + x + ' ' + y + ') (and (fp.isNaN ' + x + ') (fp.isNaN ' + y + ')))');
+  },
   numToStrChars(x) {
     if (!isSym(x)) return this.strView(String(x));
     // decimal rendering of a symbolic number: an opaque segment (its digits are never inspected; the string's length is unknown)
     if (x instanceof SNum) return [new NumSeg(x)];
+    if (x instanceof SBool) return this.strView(this.c(x) ? 'true' : 'false');
     return unsupported('conversion of ' + describe(x) + ' to string');
+  },
+  strReplace(s, re, rep) {
+    // only the escaping idiom of the prelude: a global regex matching one literal character, replaced by a fixed string
+    const src = re instanceof RegExp ? re.source : null;
+    if (!src || !re.global || !/^\\?.$/.test(src) || typeof rep !== 'string') return unsupported('String.prototype.replace(' + re + ') on a symbolic string');
+    const ch = src.length === 2 ? src.charCodeAt(1) : src.charCodeAt(0);
+    const repl = this.strView(rep.replace(/\$\$/g, '$'));
+    const out = [];
+    for (const c of s.chars) {
+      if (c instanceof NumSeg) { out.push(c); continue; }     // digits of a number never match the escaped characters ($ and \)
+      if (typeof c === 'number' ? c === ch : this.c(this.eq(c, ch, true))) out.push(...repl); else out.push(c);
+    }
+    return this.mkStr(out);
   },
   strCharCodeAt(s, i) {
     if (s.chars.some(c => c instanceof NumSeg)) return unsupported('indexing a string that contains a formatted symbolic number');
@@ -898,6 +954,7 @@ const RT = {
       return this.fround(v);
     }
     if (v instanceof Quot) return unsupported('store of an integer quotient into a typed array');
+    if (v instanceof SStr && v.chars.length === 1 && v.chars[0] instanceof NumSeg) v = v.chars[0].v;     // ToNumber(String(n)) = n
     let i = this.asI(v);
     if (!i) { if (v instanceof SNum) i = this.fpToInt32(v.t); else return unsupported('typed array store of ' + describe(v)); }
     if (cls === 'c') return unsupported('Uint8ClampedArray');
@@ -1157,7 +1214,20 @@ function ShimArray(...args) {
   if (args.length === 1 && isSym(args[0])) args[0] = RT.concrete(args[0]);
   return new Array(...args);
 }
-ShimArray.prototype = Array.prototype;
+// Array.prototype as seen by the program: generic methods applied with .call()/.apply() to typed-array shims or to arrays
+// holding symbolic values must not run natively (they would see no elements / coerce silently)
+const ShimArrayProto = Object.create(Array.prototype);
+for (const name of ['join', 'slice', 'indexOf', 'forEach', 'map', 'concat', 'every', 'some', 'filter', 'reduce', 'includes']) {
+  const real = Array.prototype[name];
+  Object.defineProperty(ShimArrayProto, name, { configurable: true, writable: true, enumerable: false, value: function (...args) {
+    let self = this;
+    if (self instanceof TAbase) self = self.$toArray();
+    if (name === 'join' && (Array.isArray(self) || typeof self === 'object') && Array.prototype.some.call(self, isSym)) return RT.sm(Array.from(self), 'join', args);
+    return real.apply(self, args);
+  } });
+}
+ShimArray.prototype = ShimArrayProto;
+Object.defineProperty(ShimArray, Symbol.hasInstance, { value: x => Array.isArray(x) });
 for (const k of ['isArray', 'from', 'of']) ShimArray[k] = Array[k];
 function ShimNumber(v) { if (!isSym(v)) return Number(v); if (v instanceof SNum) return v; return unsupported('Number()'); }
 for (const k of ['MAX_SAFE_INTEGER', 'MIN_SAFE_INTEGER', 'MAX_VALUE', 'MIN_VALUE', 'EPSILON', 'POSITIVE_INFINITY', 'NEGATIVE_INFINITY', 'NaN', 'isInteger', 'isFinite', 'isNaN', 'isSafeInteger', 'parseFloat', 'parseInt']) ShimNumber[k] = Number[k];
@@ -1216,7 +1286,12 @@ function runPath(compiled, prefix, cfg) {
   const clearTimeoutShim = id => { timers = timers.filter(t => t.id !== id); };
   globalThis.__jsx_setTimeout = setTimeoutShim;
   const DateShim = function () { return unsupported('new Date'); };
-  DateShim.now = () => now;
+  let slicesUsed = 0;
+  DateShim.now = () => {
+    // the clock may jump past the scheduler's 4 ms time slice at any reading (bounded number of jumps per path)
+    if (cfg.timeSlices && slicesUsed < cfg.timeSlices && RT.choice(2, 'clock') === 1) { slicesUsed++; now += 5; }
+    return now;
+  };
   const record = (k, args) => { st.obs.push({ k, args: args.map(a => serialise(a)) }); };
   const consoleShim = { log: (...a) => record('log', a), error: (...a) => record('err', a), warn: (...a) => record('err', a), info: (...a) => record('log', a) };
   class Exit extends Abort { constructor(code) { super('exit', 'process.exit(' + code + ')'); this.code = code; } }
@@ -1254,6 +1329,10 @@ function runPath(compiled, prefix, cfg) {
     // earliest deadline first; among equal deadlines, insertion order (Node's behaviour)
     let bi = 0;
     for (let i = 1; i < timers.length; i++) if (timers[i].at < timers[bi].at) bi = i;
+    if (cfg.timerOrder) { // timers with the same deadline may fire in any order
+      const same = []; for (let i = 0; i < timers.length; i++) if (timers[i].at === timers[bi].at) same.push(i);
+      if (same.length > 1) { try { bi = same[RT.choice(same.length, 'timer')]; } catch (e) { fail(e, 'timer'); break; } }
+    }
     const t = timers.splice(bi, 1)[0];
     if (t.at > now) now = t.at;
     try { t.fn(...t.args); } catch (e) { fail(e, 'timer'); }
